@@ -44,16 +44,18 @@ contract(
 
 # ---- the "is this file unmodified?" pre-check of a branch switch compares exactly git's notion of the mode ------------
 OWNER_X = "(current_stat.st_mode // 64) % 2 == 1"
+# the case the obligations speak about: a regular file on disk (16-bit st_mode) and an entry mode of 100644 / 100755
+CASE = "(entry_mode == 33188 or entry_mode == 33261) and file_type(current_stat.st_mode) == 8 and current_stat.st_mode < 65536"
 contract(
     prop=["C18"], file=IX, func="_check_file_matches",
     params={"repo_object_store": "opaque", "full_path": "opaque", "entry_sha": "opaque", "entry_mode": "nat", "current_stat": "obj:StatAbs",
             "honor_filemode": "bool", "blob_normalizer": "None", "tree_path": "None"},
     returns="bool", raises={ANY: None},
-    # for a regular file on disk and an entry mode of 100644 / 100755 the mode test fails iff the OWNER executable bit differs
-    # (group / other bits, set by umask or chmod 744, are not a modification: git's ce_mode_from_stat)
-    requires=["entry_mode == 33188 or entry_mode == 33261", "file_type(current_stat.st_mode) == 8", "current_stat.st_mode < 65536"],
+    # (no precondition: callers pass any stat result and any entry mode)
     # a file whose owner executable bit differs from the entry never "matches" (whatever the body looks like)
-    ensures=[f"(not honor_filemode) or (result is False) or (({OWNER_X}) == (entry_mode == 33261))"],
+    ensures=[f"not ({CASE}) or (not honor_filemode) or (result is False) or (({OWNER_X}) == (entry_mode == 33261))"],
+    # the mode test fails iff the OWNER executable bit differs (group / other bits, set by umask or chmod 744, are not a
+    # modification: git's ce_mode_from_stat)
     options={"asserts": [("mode-test-is-owner-exec-bit", "if current_mode_normalized != expected_mode_normalized:",
-                          [f"(current_mode_normalized != expected_mode_normalized) == (({OWNER_X}) != (entry_mode == 33261))"])]},
+                          [f"not ({CASE}) or ((current_mode_normalized != expected_mode_normalized) == (({OWNER_X}) != (entry_mode == 33261)))"])]},
 )
